@@ -1,7 +1,9 @@
 (* C07 - the source map relates every Go expression byte to the same byte in generated code.
    This file holds property statements only; each is closed by [exact].
-   Models: model/SourceMap.v (SourceMap.Add, the two tables), model/Gen.v (RangeWriter, generator).
-   Specification: spec/SmSpec.v (pos_of, sget/target_from_source/source_from_target, rune_starts, add_faithful, range_ok).
+   Models: model/SourceMap.v (SourceMap.Add, the two tables), model/Gen.v (RangeWriter, generator),
+   model/ProxyCache.v (the language-server proxy's DidOpen / DidChange / DidClose: held text, cached map, Go text at gopls).
+   Specification: spec/SmSpec.v (pos_of, sget/target_from_source/source_from_target, rune_starts, add_faithful, range_ok),
+   spec/ProxySpec.v (held_map_current, held_map_matches_gopls).
    Vocabulary (proofs/SourceMapProof.v): [rune_starts (S |l|) l 0] = the rune starts of a line and the offset one past
    its end; [roff lines i] = the byte offset of line i as Add counts it, [line_off lines i] = as the text has it (equal
    when no line ends inside a multi-byte sequence: [aligned]); [col0 i c] = c on the first line, 0 on later lines;
@@ -12,6 +14,7 @@ Import ListNotations.
 From V Require Import lib.Bytes lib.Sexp model.Ast model.Gen model.SourceMap spec.SmSpec.
 From Coq Require Import Permutation.
 From V Require Import proofs.SourceMapProof proofs.RangeWriterProof proofs.SmFaithfulProof proofs.GenAddsProof proofs.GenExprsProof.
+From V Require Import model.ProxyCache spec.ProxySpec proofs.ProxyCacheProof.
 Local Open Scope nat_scope.
 
 (* ---------------------------------------------------------------------------------------------------- 1 *)
@@ -251,7 +254,8 @@ Proof. split; [vm_compute; reflexivity|apply pairwise_disjb_ok; vm_compute; refl
 
 (* Every Go expression of the file is covered, and nothing else: the expressions the generator hands to Add are,
    up to order and leaving whitespace-only expressions aside, exactly SmSpec.file_exprs (all syntactic slots).
-   file_ok f: for every template of f, no attribute expression has a zero range, conditional attributes nest
+   file_ok f: the package expression has the zero range only when it is blank (a file without a package clause: the
+   generator then writes it without adding it), and for every template of f, no attribute expression has a zero range, conditional attributes nest
    fewer than 50 deep (ok_node / ok_attr), and the node nesting is within the model's fuel
    (node_exprs 100 = node_exprs 200 on its children). *)
 Theorem C07_all_expressions_added :
@@ -284,3 +288,51 @@ Proof.
   split; [vm_compute; intuition discriminate|]. split; [vm_compute; reflexivity|]. split; [vm_compute; reflexivity|].
   intros [[a b] c]. vm_compute. reflexivity.
 Qed.
+
+(* ---------------------------------------------------------------------------------------------------- 6 *)
+(* The source map the language-server proxy HOLDS.  model/ProxyCache.v: the server's DidOpen / DidChange / DidClose on
+   templ documents (held text, SourceMapCache, GoSource, the Go text given to gopls), for any verdict function
+   [parse] of the (unmodelled) parser and any history of notifications, over any number of documents.
+   After every history, for every URI: if the held text is accepted, the held map is the source map of THAT text and
+   gopls has the Go text generated from THAT text (held_map_current); and whatever map is held - also while the held
+   text does not parse - is the map of an accepted text whose Go text is the one gopls has (held_map_matches_gopls). *)
+Theorem C07_proxy_holds_map_of_held_text :
+  forall (parse : bytes -> option file) (evs : list pev) (u : bytes),
+    let s := run parse evs in
+    held_map_current (gen_of parse) (lookup u (docs s)) (lookup u (cache s)) (lookup u (gopls s)) /\
+    held_map_matches_gopls (gen_of parse) (lookup u (cache s)) (lookup u (gopls s)).
+Proof. exact proxy_coherent. Qed.
+Print Assumptions C07_proxy_holds_map_of_held_text.
+
+(* ... hence, with theorem 5, the predicate the harness evaluates on the server's state holds after every history: for
+   a document whose held text d is accepted (AST f), the proxy holds a map m and gopls a Go text code with
+   add_faithful d code m e for every expression e the generator Added (all expressions of f: C07_all_expressions_added),
+   under the hypotheses of C07_generated_file_add_faithful. *)
+Theorem C07_proxy_held_map_faithful :
+  forall (parse : bytes -> option file) (evs : list pev) (u d : bytes) (f : file),
+    let s := run parse evs in
+    lookup u (docs s) = Some d -> parse d = Some f ->
+    pairwise_disj (rev (adds (gen_state [] f))) ->
+    exists m code, lookup u (cache s) = Some m /\ lookup u (gopls s) = Some code /\
+      forall e tp, In (e, tp) (adds (gen_state [] f)) -> Forall aligned (split_on x0a (e_val e) []) ->
+        add_faithful d code (fst m) (snd m) e = true.
+Proof. exact proxy_held_map_faithful. Qed.
+Print Assumptions C07_proxy_held_map_faithful.
+
+(* Refuted variant: a proxy that returns from DidChange before SourceMapCache.Set when the new Go text equals the one
+   gopls already has (run_skip).  didOpen "package p\n\ntempl T() {\n}\n", then a blank line typed above the template:
+   the two texts generate the same Go text, the held text is the second, the held map is still the first one's, which
+   has no entry for the signature's new position (3,6) - the real transition system holds the second map. *)
+Lemma C07_proxy_skip_when_go_unchanged_refuted :
+  let s := run_skip sk_parse sk_evs in
+  fst (generate_tables [] sk_f1) = fst (generate_tables [] sk_f2) /\
+  lookup sk_u (docs s) = Some sk_t2 /\
+  lookup sk_u (cache s) = Some (snd (generate_tables [] sk_f1)) /\
+  target_from_source (fst (snd (generate_tables [] sk_f1))) 3 6 = None /\
+  target_from_source (fst (snd (generate_tables [] sk_f2))) 3 6 <> None /\
+  ~ held_map_current (gen_of sk_parse) (lookup sk_u (docs s)) (lookup sk_u (cache s)) (lookup sk_u (gopls s)).
+Proof. exact skip_variant_stale. Qed.
+Example C07_ex_proxy_real :
+  let s := run sk_parse sk_evs in
+  lookup sk_u (cache s) = Some (snd (generate_tables [] sk_f2)) /\ lookup sk_u (gopls s) = Some (fst (generate_tables [] sk_f2)).
+Proof. exact real_variant_current. Qed.
